@@ -255,8 +255,8 @@ CFG = {
         },
         "C14": {
             "level": "other",
-            "explanation": "CBOR integer kernel, reader side: the arithmetic the real parse applies to the two integer major types (n -> n, n -> -1 - n via `neg as i128 ^ !0`) is proved exact for every 64-bit argument (machine or big integer result), one harness per header variant. Loop-free; complete for that function and domain. The writer side (encode of a machine integer through ciborium-ll) did not finish in CBMC (5 attempts: symbolic execution walks every arm of the recursive encode) and is not claimed.",
-            "not_decided": "CBOR encode (writer side) and therefore the round trip itself; YAML (document structure, tags, anchors, plain-scalar quoting: must_quote + resolver on symbolic strings did not finish in 50 min), TOML keys and tables (toml-span), XML (xmlparser), CSV / TSV (aho-corasick), CBOR strings, floats, containers, big integers (num-bigint), --from / --to, well-formedness for independent readers",
+            "explanation": "CBOR integer kernel, reader side: the arithmetic the real parse applies to the two integer major types (n -> n, n -> -1 - n via `neg as i128 ^ !0`) is proved exact for every 64-bit argument (machine or big integer result), one harness per header variant. Loop-free; complete for that function and domain. The writer side (encode of a machine integer through ciborium-ll) did not finish in CBMC (5 attempts: symbolic execution walks every arm of the recursive encode) and is not claimed. CSV / TSV, reader side: the real field readers invert the formats' quoting / escaping for every field content of length <= 2 over the metacharacter alphabet (bounded, enumerated), and the real CSV row reader is run on five texts of empty / quoted-empty cells (points: the quoted-empty last row that `[\"\"] | tocsv` writes is a row, null and the empty string stay apart).",
+            "not_decided": "CBOR encode (writer side) and therefore the round trip itself; YAML (document structure, tags, anchors, plain-scalar quoting: must_quote + resolver on symbolic strings did not finish in 50 min), TOML keys and tables (toml-span), XML (xmlparser), the CSV / TSV writers (aho-corasick) and cells that reach the number parser, CBOR strings, floats, containers, big integers (num-bigint), --from / --to, well-formedness for independent readers",
             "assumptions": ["ciborium-ll's Header values are taken as given (the decoder that produces them is not verified)"],
         },
         "C05": {
@@ -273,8 +273,8 @@ CFG = {
         },
         "C07": {
             "level": "other",
-            "explanation": "The writer half of the string round trip is finite: for each of the 256 byte values the real write_byte! macro (with the two fall-back expressions its callers pass) is run into a recording fmt::Write and compared with the escape RFC 8259 section 7 prescribes. Exhaustive over u8 in the thorough tier (16 harnesses of 16 bytes); the quick tier covers the control characters, the quote, and DEL / the first non-ASCII block. This decides 'what jaq writes for a string byte is what RFC 8259 says'; it does not decide the round trip. The whole write_utf8! macro (predicate and splitting included) is additionally run at the boundaries of its is_special predicate (0x00, 0x1f, 0x20, 0x22, 0x5c, 0x7e, 0x7f, 0x80), one byte per harness: points.",
-            "not_decided": "the reader (hifijson lexer, parse_string), hence print-then-parse = id itself; the splitting logic of write_utf8! beyond one-byte strings at the listed boundary bytes; shortest-round-trip float printing (ryu), big-integer and decimal literals, key order (indexmap), nesting, indentation / sort_keys, the CLI path, agreement with an independent RFC 8259 parser",
+            "explanation": "The writer half of the string round trip is finite: for each of the 256 byte values the real write_byte! macro (with the two fall-back expressions its callers pass) is run into a recording fmt::Write and compared with the escape RFC 8259 section 7 prescribes. Exhaustive over u8 in the thorough tier (16 harnesses of 16 bytes); the quick tier covers the control characters, the quote, and DEL / the first non-ASCII block. This decides 'what jaq writes for a string byte is what RFC 8259 says'; it does not decide the round trip. The whole write_utf8! macro (predicate and splitting included) is additionally run at the boundaries of its is_special predicate (0x00, 0x1f, 0x20, 0x22, 0x5c, 0x7e, 0x7f, 0x80), one byte per harness: points. On the reader side only the number classifier parse_num is reached, at points run through hifijson's real slice lexer: exponent-without-dot and fraction literals stay decimals with their text kept character for character, lone signs and dangling `.` / `e` are reported errors (not a panic), integer literals are handed whole to the integer parser in base 10.",
+            "not_decided": "the string reader (hifijson lexer, parse_string), hence print-then-parse = id itself; number literals beyond the listed points and the integer parser (core / num-bigint); the splitting logic of write_utf8! beyond one-byte strings at the listed boundary bytes; shortest-round-trip float printing (ryu), big-integer and decimal literals, key order (indexmap), nesting, indentation / sort_keys, the CLI path, agreement with an independent RFC 8259 parser",
             "assumptions": ["core::fmt (format_args!, LowerHex, char::escape_default) is executed as compiled on concrete bytes"],
         },
         "C11": {
@@ -285,8 +285,8 @@ CFG = {
         },
         "C12": {
             "level": "other",
-            "explanation": "Of the collection built-ins only the native numeric kernel round / floor / ceil (ValTx::round) is decided, as a trait-contract instance over the abstract value type with the rounding function abstracted to any float result (complete over f64). The sorting / grouping / extremum kernels (sort_by, group_by, cmp_by) are closures over boxed key streams and did not fit CBMC within the budget; everything defined in defs.jq is jq source.",
-            "not_decided": "sort_by / group_by / unique_by / min_by / max_by laws, keys = keys_unsorted | sort, to_entries / from_entries / with_entries, indices, bsearch, flatten, transpose, walk, del, paths, pick, join, splits, contains, ltrimstr family",
+            "explanation": "Of the collection built-ins the native numeric kernel round / floor / ceil (ValTx::round) is decided as a trait-contract instance over the abstract value type with the rounding function abstracted to any float result (complete over f64). Val::contains (arrays) and Val::indices (arrays, byte strings, text strings, element argument) are run on concrete containers at a handful of points each - enough to pin down window positions, overlap, character vs byte counting, the empty pattern and the longer-argument case, nothing more. The sorting / grouping / extremum kernels (sort_by, group_by, cmp_by) are closures over boxed key streams and did not fit CBMC (cmp_by over three u8 elements with one-element key streams > 400 s, retried at the end of the build); everything defined in defs.jq is jq source.",
+            "not_decided": "sort_by / group_by / unique_by / min_by / max_by laws (stability included), keys = keys_unsorted | sort, to_entries / from_entries / with_entries, indices and contains beyond the listed points (substring search reaches memchr inline assembly), contains on objects, bsearch, flatten, transpose, walk, del, paths, pick, join, splits, ltrimstr family",
         },
     },
     "obligations": OBS,
